@@ -316,6 +316,19 @@ def slotCheck (res : String) (args : List Val) (atts : List (String × Val)) (b 
           let (rest', now', o) := slotCheck res args atts b rest now sl
           (c' :: rest', now', o)
 
+/-- A request parked in `util.Sleep` by a throttling rule while another goroutine reloads the rules (`armed`):
+    `Slot.Check` fetched the controller slice before it slept and goes on with exactly those controllers — the rule
+    list it started with, never a mixture — so its decision, triggering rule and sleeps are those of `slotCheck` on
+    the old list; what it writes into statistics that the new generation reuses (`same` / `stat`) is seen there, what
+    it writes into dropped controllers is lost.  Hence: finish the request on the old list, then `reload`.
+    The last component says whether the armed reload happened (a sleep was requested). -/
+def entryArmed (base : Nat) (armed : Option (List Rule)) (res : String) (args : List Val) (atts : List (String × Val))
+    (b : Int) (cs : List Ctl) (now : Int) : List Ctl × Int × Out × Bool :=
+  let out := slotCheck res args atts b cs now []
+  match armed with
+  | some rs => if out.2.2.sleeps.isEmpty then (out.1, out.2.1, out.2.2, false) else (reload base out.1 rs, out.2.1, out.2.2, true)
+  | none => (out.1, out.2.1, out.2.2, false)
+
 /-! ## The one-value reference machines
 
 What a controller does to the cells of a single value when nothing else is in the caches.  The theorems
